@@ -46,10 +46,95 @@ type FmtCase struct {
 	R  []string `json:"r"`
 	N  int      `json:"n"`            // -1: plain New; >=0: New.AddContext(n).Unify()
 	FI *FI      `json:"fi,omitempty"` // nil: no file header
+	// Poison > 0: directly before every parse of a rendering, a malformed
+	// variant of the renderings (see poisonText) is given to one of the readers
+	// and whatever that returns is ignored.  Every call of a reader stands for
+	// itself: a rejected input must not change what the next call returns.
+	Poison int `json:"poison,omitempty"`
+}
+
+// strays are lines that belong to no hunk: text after the patch, other tools'
+// markers, the next file of a multi-file patch.
+var strays = []string{"stray line", "\\ No newline at end of file", "diff --git a/x b/x", "Only in x: y", "index 83db48f..bf269f4 100644", "Binary files a and b differ", "1c1", "*** 1,2 ****"}
+
+const poisonKinds = 9
+
+// insertLine puts line before line number at (0-based) of text; at or after
+// the end it is appended.
+func insertLine(text string, at int, line string) string {
+	ls := strings.SplitAfter(text, "\n")
+	if at = max(at, 0); at >= len(ls) {
+		return text + line + "\n"
+	}
+	return strings.Join(ls[:at], "") + line + "\n" + strings.Join(ls[at:], "")
+}
+
+// poisonText builds malformed input number shape (> 0) from the Normal and
+// Unified renderings of some chunks, and says which reader gets it: 'u'
+// ReadUnified, 'n' Read, 'g' ReadGitPatch.
+func poisonText(shape int, cs []*mdiff.Chunk, ntext, utext string) (byte, string) {
+	stray := strays[((shape-1)/poisonKinds)%len(strays)]
+	firstBody := 1 // line number of the first body line of the first hunk
+	for i, ln := range strings.SplitAfter(utext, "\n") {
+		if strings.HasPrefix(ln, "@@ ") {
+			firstBody = i + 1
+			break
+		}
+	}
+	switch (shape - 1) % poisonKinds {
+	case 0: // text after the last hunk
+		return 'u', utext + stray + "\n"
+	case 1: // a stray line inside the first hunk's body
+		return 'u', insertLine(utext, firstBody+1, stray)
+	case 2: // ... inside the last hunk's body
+		return 'u', insertLine(utext, strings.Count(utext, "\n")-1, stray)
+	case 3: // two files in one text
+		return 'u', utext + "diff -u a b\n" + utext
+	case 4: // a stray line inside the first change command's lines
+		return 'n', insertLine(ntext, 2, stray)
+	case 5:
+		return 'n', ntext + stray + "\n"
+	case 6: // a git patch whose second file section breaks off in its header
+		hunks, _ := render(mdiff.Unified, cs, nil)
+		return 'g', "diff --git a/f b/f\n--- a/f\n+++ b/f\n" + hunks + stray + "\ndiff --git a/g b/g\n--- a/g\n" + stray + "\n"
+	case 7: // cut off in the middle
+		return 'u', utext[:len(utext)*2/3]
+	default: // the other format
+		if shape%2 == 0 {
+			return 'u', ntext
+		}
+		return 'n', utext
+	}
+}
+
+// poisonParse gives malformed text to a reader and ignores the outcome (it
+// reports a panic, which is not this property's business either).
+func poisonParse(shape int, cs []*mdiff.Chunk, ntext, utext string) (panicked bool) {
+	if shape <= 0 {
+		return false
+	}
+	rd, text := poisonText(shape, cs, ntext, utext)
+	return vk.PanicValue(func() {
+		switch rd {
+		case 'u':
+			mdiff.ReadUnified(strings.NewReader(text))
+		case 'n':
+			mdiff.Read(strings.NewReader(text))
+		default:
+			mdiff.ReadGitPatch(strings.NewReader(text))
+		}
+	}) != nil
 }
 
 func (c FmtCase) String() string {
-	return fmt.Sprintf("L=%s R=%s n=%d", showLines(c.L), showLines(c.R), c.N)
+	s := fmt.Sprintf("L=%s R=%s n=%d", showLines(c.L), showLines(c.R), c.N)
+	if c.FI != nil {
+		s += fmt.Sprintf(" header names %q / %q", c.FI.Left, c.FI.Right)
+	}
+	if c.Poison > 0 {
+		s += fmt.Sprintf(" [before each parse, a reader is given malformed text (shape %d) and rejects or accepts it]", c.Poison)
+	}
+	return s
 }
 
 func (c FmtCase) diff() *mdiff.Diff {
@@ -223,6 +308,9 @@ func f5Exposed(cs []*mdiff.Chunk) bool {
 
 type fmtStats struct {
 	emptyRange, oneLine, hostile, f5hits bool
+	poison                               int
+	poisonPanic                          bool
+	o                                    *vk.Obs // for Step and Retain; may be nil
 }
 
 func hostileLine(s string) bool {
@@ -236,6 +324,13 @@ func checkRoundTrip(cs []*mdiff.Chunk, fi *mdiff.FileInfo, noTriage bool, st *fm
 	if m != "" {
 		return "Normal: " + m
 	}
+	var utext string
+	if st.poison > 0 {
+		if utext, m = render(mdiff.Unified, cs, fi); m != "" {
+			return "Unified: " + m
+		}
+		st.poisonPanic = poisonParse(st.poison, cs, ntext, utext) || st.poisonPanic
+	}
 	np, err := mdiff.Read(strings.NewReader(ntext))
 	if err != nil {
 		return fmt.Sprintf("Read of the Normal rendering fails: %v\n%s", err, ntext)
@@ -246,11 +341,21 @@ func checkRoundTrip(cs []*mdiff.Chunk, fi *mdiff.FileInfo, noTriage bool, st *fm
 	if again, m := render(mdiff.Normal, np.Chunks, np.FileInfo); m != "" || again != ntext {
 		return fmt.Sprintf("Normal -> Read -> Format(Normal) does not reproduce the text (%s):\nfirst:\n%s\nagain:\n%s", m, ntext, again)
 	}
+	wantN := wantNormal(cs)
+	st.o.Retain(func() string {
+		// a parsed patch is the caller's; later parses must not reach into it
+		if _, m := compareChunks(np.Chunks, wantN, false); m != "" {
+			return fmt.Sprintf("Normal -> Read: %s\nrendering:\n%s", m, ntext)
+		}
+		return ""
+	})
+	st.o.Step()
 	// ---- unified -----------------------------------------------------------
-	utext, m := render(mdiff.Unified, cs, fi)
+	utext, m = render(mdiff.Unified, cs, fi)
 	if m != "" {
 		return "Unified: " + m
 	}
+	st.poisonPanic = poisonParse(st.poison, cs, ntext, utext) || st.poisonPanic
 	up, err := mdiff.ReadUnified(strings.NewReader(utext))
 	if len(cs) == 0 {
 		// the empty rendering: zero chunks or an error are both acceptable
@@ -266,13 +371,24 @@ func checkRoundTrip(cs []*mdiff.Chunk, fi *mdiff.FileInfo, noTriage bool, st *fm
 		return fmt.Sprintf("ReadUnified of the Unified rendering fails: %v\n%s", err, utext)
 	}
 	exposed := f5Exposed(cs)
-	collapsed, m := compareChunks(up.Chunks, wantUnified(cs), exposed && !noTriage)
+	wantU := wantUnified(cs)
+	collapsed, m := compareChunks(up.Chunks, wantU, exposed && !noTriage)
 	if m != "" {
 		return fmt.Sprintf("Unified -> ReadUnified: %s\nrendering:\n%s", m, utext)
 	}
 	if m := checkInfo(up.FileInfo, fi); m != "" {
 		return fmt.Sprintf("Unified -> ReadUnified: %s\nrendering:\n%s", m, utext)
 	}
+	st.o.Retain(func() string {
+		_, m := compareChunks(up.Chunks, wantU, exposed && !noTriage)
+		if m == "" {
+			m = checkInfo(up.FileInfo, fi)
+		}
+		if m != "" {
+			return fmt.Sprintf("Unified -> ReadUnified: %s\nrendering:\n%s", m, utext)
+		}
+		return ""
+	})
 	again, m := render(mdiff.Unified, up.Chunks, up.FileInfo)
 	if m != "" {
 		return "re-format: " + m
@@ -328,10 +444,11 @@ func runC14(c FmtCase, o *vk.Obs) string {
 	c.L, c.R = expandLines(c.L), expandLines(c.R)
 	d := c.diff()
 	fi := c.FI.info()
-	var st fmtStats
+	st := fmtStats{poison: c.Poison, o: o}
 	if m := checkRoundTrip(d.Chunks, fi, o.NoTriage, &st); m != "" {
 		return c.String() + ": " + m
 	}
+	o.Step()
 	if m := checkMeaning(d.Chunks, fi, c.L, c.R); m != "" {
 		return c.String() + ": " + m
 	}
@@ -361,6 +478,8 @@ func classifyFmt(cs []*mdiff.Chunk, L, R []string, st *fmtStats, o *vk.Obs) {
 	o.ClassIf(st.hostile, "hostile_line")
 	o.ClassIf(len(cs) == 0, "empty_diff")
 	o.ClassIf(len(cs) >= 2, "chunks>=2")
+	o.ClassIf(st.poison > 0, "malformed_text_parsed_before_each_parse")
+	o.ClassIf(st.poisonPanic, "reader_panicked_on_malformed_text")
 	if st.f5hits {
 		o.Class("known_hit_F5")
 		o.Known("F5")
@@ -374,8 +493,9 @@ func classifyFmt(cs []*mdiff.Chunk, L, R []string, st *fmtStats, o *vk.Obs) {
 type GitCase struct {
 	Files   []FmtCase `json:"files"`
 	Names   []string  `json:"names"`
-	Extra   int       `json:"extra"`   // selects optional header lines per file
-	HunkCtx bool      `json:"hunkctx"` // append function context after the second @@
+	Extra   int       `json:"extra"`            // selects optional header lines per file
+	HunkCtx bool      `json:"hunkctx"`          // append function context after the second @@
+	Poison  int       `json:"poison,omitempty"` // see FmtCase.Poison (built from the first file section)
 }
 
 func runGit(g GitCase, o *vk.Obs) string {
@@ -418,6 +538,13 @@ func runGit(g GitCase, o *vk.Obs) string {
 		text.WriteString(u)
 		want = append(want, exp{name, d.Chunks})
 		classifyFmt(d.Chunks, f.L, f.R, &st, &vk.Obs{})
+	}
+	o.Step()
+	if g.Poison > 0 && len(want) > 0 {
+		nt, _ := render(mdiff.Normal, want[0].cs, nil)
+		ut, _ := render(mdiff.Unified, want[0].cs, &mdiff.FileInfo{Left: "a/" + want[0].name, Right: "b/" + want[0].name})
+		o.ClassIf(poisonParse(g.Poison, want[0].cs, nt, ut), "reader_panicked_on_malformed_text")
+		o.Class("malformed_text_parsed_before_each_parse")
 	}
 	ps, err := mdiff.ReadGitPatch(strings.NewReader(text.String()))
 	if len(want) == 0 {
